@@ -109,8 +109,17 @@ def instances(env, cfg, family, B, seed):
             grid = torch.randint(0, 9, (B, n + 1, 2), generator=g).float() / 8.0
             td["locs"], td["depot"] = grid[:, 1:], grid[:, 0]
             return td
-        if name == "cvrp30":
-            pass
+        if name == "cvrptw":
+            # hand-supplied service durations (the generator only emits zeros; Solomon-style data has them), kept
+            # within the documented bound tw_end + d(i,depot) + duration <= max_time
+            mt = td["time_windows"][:, 0, 1]  # depot window end = max_time (possibly scaled)
+            d0 = (td["locs"] - td["depot"][:, None, :]).norm(dim=-1)
+            slack = (mt[:, None] - d0 - td["time_windows"][:, 1:, 1]).clamp(min=0)
+            dur = torch.rand(B, n, generator=g) * torch.minimum(slack, mt[:, None] * 0.15)
+            if not cfg.get("scale", False):
+                dur = dur.floor()
+            td["durations"] = torch.cat((torch.zeros(B, 1), dur), 1)
+            return td
         if name == "op":
             # integer grid, max_length exactly the length of some closed tour
             grid = torch.randint(0, 5, (B, n + 1, 2), generator=g).float()
